@@ -41,6 +41,9 @@ type Case struct {
 	OmitMarshalers bool `json:"omit_marshalers,omitempty"`
 	// Edited: the pinned query is a textual edit of another one and need not be syntactically valid
 	Edited bool `json:"edited,omitempty"`
+	// Extra: the schema also draws from the second generator stream (input-object arguments, deep lists); set on
+	// every generated case, so that a replay file of one rebuilds the same schema
+	Extra bool `json:"extra,omitempty"`
 }
 
 // aliasClash reports whether some alias names two different fields anywhere in the document.
@@ -131,7 +134,12 @@ func runCase(c *Case) ([]F, map[string]interface{}) {
 	var fs []F
 	obs := map[string]interface{}{}
 	r := vh.NewRng(c.Seed)
-	g := gqlty.NewGenSchema(r.Fork())
+	var extra *vh.Rng
+	if c.Extra {
+		// shapes added later come from a second stream; pinned seeds (corpus, replay) keep their schema
+		extra = vh.NewRng(c.Seed ^ 0x9e3779b97f4a7c15)
+	}
+	g := gqlty.NewGenSchemaX(r.Fork(), extra)
 	schema, err := g.Build()
 	obs["shapes"] = g.Shapes
 	if err != nil {
@@ -364,11 +372,11 @@ func main() {
 		for i := 0; i < o.N; i++ {
 			cr := r.Fork()
 			if len(seeds) == 0 {
-				cases = append(cases, Case{Seed: cr.U64() >> 1, NQueries: 6, IllPct: 50, Origin: "search-fresh"})
+				cases = append(cases, Case{Seed: cr.U64() >> 1, NQueries: 6, IllPct: 50, Origin: "search-fresh", Extra: true})
 				continue
 			}
 			sd := seeds[cr.Intn(len(seeds))]
-			c := Case{Seed: sd.Seed, NQueries: 8, QSeed: cr.U64()>>1 | 1, IllPct: 30 + cr.Intn(50), Clash: sd.Clash, Origin: "search"}
+			c := Case{Seed: sd.Seed, NQueries: 8, QSeed: cr.U64()>>1 | 1, IllPct: 30 + cr.Intn(50), Clash: sd.Clash, Origin: "search", Extra: sd.Extra}
 			if sd.Query != "" && cr.Chance(50) {
 				c.Query, c.NQueries, c.Edited = editQuery(cr, sd.Query), 1, true
 			}
@@ -390,7 +398,7 @@ func main() {
 		}
 		r := vh.NewRng(o.Seed)
 		for i := 0; i < o.N; i++ {
-			cases = append(cases, Case{Seed: r.U64() >> 1, NQueries: 6, Origin: "generated"})
+			cases = append(cases, Case{Seed: r.U64() >> 1, NQueries: 6, Origin: "generated", Extra: true})
 		}
 	}
 	if from, to, results, ok := gqlty.IsChild(); ok {
@@ -401,7 +409,7 @@ func main() {
 		return
 	}
 	run := vh.NewRun("C14", o)
-	run.Rule = "case = one generated schema (1-4 reflect.StructOf object types with scalar/pointer/slice/named-scalar/enum/text-marshaler/time/bytes fields, key fields, static struct members, FieldFuncs made with reflect.MakeFunc in every signature form returning objects, lists, unions and scalars) + 6 queries that follow the schema (35% with one seeded ill-formed spot); non-trivial = the builder accepted the schema and at least one query was executed; distinct by seed"
+	run.Rule = "case = one generated schema (1-4 reflect.StructOf object types with scalar/pointer/slice/named-scalar/enum/text-marshaler/time/bytes fields, key fields, static struct members, FieldFuncs made with reflect.MakeFunc in every signature form returning objects, lists (up to 7 List/NonNull wrappers), unions and scalars, arguments incl. input objects) + 6 queries that follow the schema (35% with one seeded ill-formed spot); non-trivial = the builder accepted the schema and at least one query was executed; distinct by seed"
 	workers := runtime.NumCPU() / 2
 	if workers > 8 {
 		workers = 8
